@@ -3,6 +3,7 @@ import Oracle.StreamGate
 import Oracle.Link
 import Oracle.Codec
 import Oracle.Remote
+import Oracle.Reorder
 /-! Oracle suites of property C11. -/
 namespace Oracle.C11
 
@@ -14,7 +15,9 @@ def suites : List (String × Suite) := [
   ("link-spec", Oracle.Link.spec),
   ("codec", Oracle.Codec.model),
   ("remote", Oracle.Remote.model),
-  ("remote-judge", Oracle.Remote.judge)
+  ("remote-judge", Oracle.Remote.judge),
+  ("reorder", Oracle.Reorder.model),
+  ("reorder-spec", Oracle.Reorder.spec)
 ]
 
 end Oracle.C11
